@@ -612,7 +612,10 @@ def ew_sig(body, what, decl, bound_rxs, entries, scalar=None, target="result", i
     for sym in "+-*/":
         parts = rhs.split(sym)
         if len(parts) == 2 and opd(parts[0]) and opd(parts[1]):
-            return "{ lhs := %s, op := %s, rhs := %s }" % (opd(parts[0]), EWOPS[sym], opd(parts[1]))
+            l, r = opd(parts[0]), opd(parts[1])
+            if sym in "+*":   # the scalars form a commutative ring: operands of + and * in canonical order
+                l, r = sorted((l, r))
+            return "{ lhs := %s, op := %s, rhs := %s }" % (l, EWOPS[sym], r)
     raise TranslateError("%s: right-hand side outside the grammar: %r" % (what, rhs))
 
 
